@@ -50,6 +50,21 @@ SYMS = ['Al', 'Cu', 'Fe', 'Ni', 'Mg', 'Ti', 'Al-alt', 'vac']
 LABELS = ['core', 'bulk', 'surf', 'gb', 'xA', 'yB']
 
 
+def with_layout(a, layout):
+    """The same values in another memory layout: what a caller gets from a transpose, a column-wise
+    assembly or a slice of a larger array.  Values and shape are unchanged."""
+    a = np.asarray(a)
+    if layout == 'F' and a.ndim >= 2:
+        return np.asfortranarray(a)
+    if layout == 'strided' and a.ndim >= 1 and a.size:
+        big = np.zeros(a.shape[:-1] + (2 * a.shape[-1],), dtype=a.dtype)
+        big[..., ::2] = a
+        return big[..., ::2]
+    if layout == 'T' and a.ndim >= 2:
+        return np.ascontiguousarray(a.T).T
+    return a
+
+
 def scale_of(base, dim):
     v = 1.0
     for b, p in zip(base, dim):
@@ -74,10 +89,11 @@ class ModelEngine(Engine):
     max_ops = 30
     expected_probes = ['read_in_other_epoch', 'xml_read', 'json_read', 'dm_read', 'path_read', 'stream_read', 'short_read_stream',
                        'scaled_property', 'symbols_with_gap', 'masses_partly_none', 'one_atom_system', 'length1_array',
-                       'rank3_value', 'rewrite_chain', 'elastic_normalised', 'unseeded_epoch', 'string_property', 'error_field']
+                       'rank3_value', 'rewrite_chain', 'elastic_normalised', 'unseeded_epoch', 'string_property', 'error_field',
+                       'noncontiguous_input']
     rule = ('Each run is a history of up to 30 operations over a set of up to 10 serialised artifacts: build a value-with-units / '
             'Box / Atoms / System / ElasticConstants in the current epoch from simulator-held physical (SI, dimension) values and '
-            'write it (uc.model, .model(), dump("system_model"), JSON or XML text with any indent, returned / to path / to stream); '
+            'write it (arrays handed over C-ordered, Fortran-ordered, transposed or as strided views; uc.model, .model(), dump("system_model"), JSON or XML text with any indent, returned / to path / to stream); '
             'restart (new working-unit epoch: seeded, unseeded through the owned random seam, named subset, SI, atomman default; all '
             'live objects dropped); read an artifact back (DataModelDict, JSON text, XML text, path, BytesIO, raw stream with short '
             'reads, buffered stream) and compare with the physical truth; rewrite (read then write again under the current epoch: '
@@ -180,7 +196,7 @@ class ModelEngine(Engine):
         r = ctx.rng
         what = ctx.wchoice([('value', 2.0), ('box', 1.0), ('atoms', 1.0), ('system', 3.0), ('elastic', 1.0)])
         op = {'op': 'write', 'what': what, 'enc': r.choice(['dm', 'json', 'xml']), 'indent': r.choice([None, None, 1, 2, 4]),
-              'dest': r.choice(['return', 'return', 'path', 'stream'])}
+              'dest': r.choice(['return', 'return', 'path', 'stream']), 'layout': r.choice(['C', 'C', 'F', 'strided', 'T'])}
         if what == 'value':
             kind = r.choice(sorted(UNITS_BY_KIND))
             shape = r.choice([(), (), (1,), (3,), (5,), (1, 1), (2, 3), (3, 3), (2, 3, 2), (3, 3, 3), (1, 2, 1)])
@@ -368,7 +384,9 @@ class ModelEngine(Engine):
             elif op['form'] == 'pyfloat' and shape == ():
                 given = float(w)
             else:
-                given = w
+                given = with_layout(w, op.get('layout', 'C'))
+                if isinstance(given, np.ndarray) and given.ndim >= 1 and not given.flags['C_CONTIGUOUS']:
+                    ctx.probe('noncontiguous_input')
             kw = {}
             if op.get('error'):
                 kw['error'] = np.abs(w) * 0.01
@@ -429,6 +447,12 @@ class ModelEngine(Engine):
             else:
                 arrs[nm] = np.array(vals).reshape((n,) + ts)
                 ctx.probe('string_property')
+        lay = op.get('layout', 'C')
+        if lay != 'C':
+            pos = with_layout(pos, lay)
+            arrs = {nm: (with_layout(a, lay) if a.dtype.kind in 'fi' else a) for nm, a in arrs.items()}
+            if not pos.flags['C_CONTIGUOUS']:
+                ctx.probe('noncontiguous_input')
         atoms = ctx.must('C10.X', am.Atoms, atype=np.array(op['atype'], dtype=int), pos=pos, klass='Atoms()', **arrs)
         units = dict(op['units'])
         names = ['atype', 'pos'] + sorted(arrs)
@@ -754,4 +778,6 @@ class ModelEngine(Engine):
             out.append(dict(op, src='text'))
         if op.get('dest') in ('path', 'stream'):
             out.append(dict(op, dest='return'))
+        if op.get('layout', 'C') != 'C':
+            out.append(dict(op, layout='C'))
         return out
